@@ -323,9 +323,13 @@ impl Sut {
     }
 
     pub fn records(&self) -> Vec<(Vec<u8>, DumpRec)> {
+        Sut::records_of(&self.inner)
+    }
+
+    pub fn records_of(inner: &Arc<MemoryStore>) -> Vec<(Vec<u8>, DumpRec)> {
         let acc: Arc<std::sync::Mutex<Vec<(Vec<u8>, DumpRec)>>> = Arc::new(std::sync::Mutex::new(vec![]));
         let acc2 = acc.clone();
-        self.inner.remove_if(&mut move |k: &KeyType, r: &Record| {
+        inner.remove_if(&mut move |k: &KeyType, r: &Record| {
             let (ts, cas, flags, ttl, val) = r.verif_view();
             acc2.lock().unwrap().push((k.to_vec(), DumpRec { ts, cas, flags, ttl, value: val.to_vec() }));
             false
@@ -335,13 +339,17 @@ impl Sut {
         v
     }
 
-    pub fn dump(&self) -> String {
-        let recs = self.records();
+    pub fn dump_of(inner: &Arc<MemoryStore>) -> String {
+        let recs = Sut::records_of(inner);
         let parts: Vec<String> = recs
             .iter()
             .map(|(k, r)| format!("k={} v={} f={} c={} ts={} ttl={}", hexd(k), hexd(&r.value), r.flags, r.cas, r.ts, r.ttl))
             .collect();
         format!("dump {}", parts.join(";"))
+    }
+
+    pub fn dump(&self) -> String {
+        Sut::dump_of(&self.inner)
     }
 
     pub fn usage(&self) -> u64 {
